@@ -49,6 +49,12 @@ Theorem C19_solids_structure :
 Proof. vm_compute. reflexivity. Qed.
 Print Assumptions C19_solids_structure.
 Definition counts_of (t : Z * Z * Z * Z * Z) : Z * Z := (snd (fst t), snd t).
+(* the published independence numbers of the octahedron (2) and the icosahedron (3), and what independence_number() returns on the generated
+   graphs, are the size of a largest independent set of the generated graph (all 2^6 / 2^12 subsets, kernel computation) *)
+Theorem C19_published_independence_numbers :
+  alpha_octahedron = (indep_number gen_octahedron, indep_number gen_octahedron) /\ alpha_icosahedron = (indep_number gen_icosahedron, indep_number gen_icosahedron).
+Proof. split; vm_compute; reflexivity. Qed.
+Print Assumptions C19_published_independence_numbers.
 Theorem C19_table_counts : counts_of table_tetrahedron = (4, 6) /\ counts_of table_cube = (8, 12) /\ counts_of table_octahedron = (6, 12) /\
   counts_of table_dodecahedron = (20, 30) /\ counts_of table_icosahedron = (12, 30).
 Proof. repeat split; vm_compute; reflexivity. Qed.
